@@ -3,6 +3,7 @@ C19 — Nested `__type__` mappings translate bottom-up with exact error location
 All theorems are for every finite tree and every environment (`resolve`, `apply` arbitrary).
 -/
 import CobaldVerif.Model.Translate
+import CobaldVerif.Generated.Src
 
 namespace Cobald.Props.C19
 open Cobald Cobald.Translate
@@ -235,5 +236,20 @@ def errView : Res Val → Option (Path × List Path)
   | .ok _ => none
 example : errView (tr exEnv exTree [] []) =
     some ([.key "a", .key "b", .idx 1, .key "k"], [[.key "a", .key "b", .idx 2]]) := by decide
+
+/-! ### the translator as written in the source
+
+`Gen.translatorKeys` is only emitted when `Translator.translate_hierarchy` and `Translator.construct`
+are, up to layout, the text the model `tr` / `construct` was transcribed from; it holds the two
+reserved keys the model uses. `Gen.pipelineWalkShape`: the pipeline section passes every element
+through this same translation (`PipelineTranslator` falls back to it for everything that is not a
+mapping with a `pipeline` key). -/
+
+theorem gen_translator_keys :
+    Gen.translatorKeys = ["__type__", "__args__"] ∧ Gen.pipelineWalkShape = true ∧
+    (∀ m, hasType m = m.any (fun kv => kv.1 == Gen.translatorKeys[0]!)) ∧
+    (∀ rest, getArgs rest = match lookupV (Gen.translatorKeys[1]!) rest with
+      | none => some [] | some (.list l) => some l | some _ => none) :=
+  ⟨rfl, rfl, fun _ => rfl, fun _ => rfl⟩
 
 end Cobald.Props.C19
